@@ -147,6 +147,9 @@ def handle_trace_string_global(parser, events):
     vstr = b''
     lookup_events = []
     for event in events:
+        if event.eventid != events[0].eventid:
+            # Another kernel trace record of this thread that landed between the string's records.
+            continue
         lookup_events.append(event)
         if event.func_qualifier & DgbFuncQual.DBG_FUNC_START.value:
             debugid = event.values[0]
@@ -185,14 +188,14 @@ def handle_trace_string_proc_exit(parser, events):
 
 
 def handle_trace_string_threadname(parser, events):
-    name = b''.join([e.data for e in events]).replace(b'\x00', b'').decode()
+    name = b''.join([e.data for e in events if e.eventid == events[0].eventid]).replace(b'\x00', b'').decode()
     event = TraceStringThreadname(events, name)
     parser.tids_names[events[0].tid] = event.name
     return event
 
 
 def handle_trace_string_threadname_prev(parser, events):
-    name = b''.join([e.data for e in events]).replace(b'\x00', b'').decode()
+    name = b''.join([e.data for e in events if e.eventid == events[0].eventid]).replace(b'\x00', b'').decode()
     event = TraceStringThreadnamePrev(events, name)
     parser.tids_names[events[0].tid] = event.name
     return event
